@@ -161,14 +161,15 @@ FILES_V2 = {
 USE_CALLER = '<section metal:use-macro="t.macros[\'%s\']"><u metal:fill-slot="s">cs-${name}</u><u metal:fill-slot="x">cx-${name}</u></section>'
 FILES_V3 = {n: b.replace("A2-", "A3-").replace("fx2-", "fx3-")
              .replace("C2-", "C3-")
-             .replace('<p metal:define-macro="b">B-${name}</p>', "")
+             .replace('<p metal:define-macro="b">B-${name}</p>',
+                      '<p metal:define-macro="d">D3-${name}</p>')
              .replace("lib2:", "lib3:").replace("n2:", "n3:")
              .replace("<h2>${who}!</h2>", "<h3>${who}?</h3>")
              .replace('class="v2"', 'class="v3"')
              .replace("Hello again", "Hello once more")
             for n, b in FILES_V2.items()}
 assert all(FILES_V3[n] != FILES_V2[n] for n in FILES_V2)
-_VMARK = re.compile(r"A[23]-|fx[23]-|C[23]-|lib[23]:|n[23]:|<h[23]>|[!?]</h[23]>|"
+_VMARK = re.compile(r"A[23]-|fx[23]-|C[23]-|D3-|lib[23]:|n[23]:|<h[23]>|[!?]</h[23]>|"
                     r'class=\"?v[23]\"?|Hello again|Hello once more')
 
 
@@ -187,7 +188,9 @@ def spans_both(r: list, v2: list, v3: list) -> bool:
     if v2[0] != "ok" or v3[0] != "ok":
         return False
     if isinstance(r[1], list):
-        return set(r[1]) <= set(v2[1]) | set(v3[1])
+        # (the macros of a template are listed at one moment: all of one
+        # version's, never some of each)
+        return r[1] == v2[1]
     return isinstance(r[1], str) and isinstance(v2[1], str) and \
         isinstance(v3[1], str) and \
         set(_pieces(r[1])) <= set(_pieces(v2[1])) | set(_pieces(v3[1]))
@@ -478,7 +481,7 @@ class C14(CheckBase):
         """A shared auto-reloading file template that has been rendered
         before; its file is replaced, then three threads use it at the same
         time.  Alone, each of them would get the new version."""
-        name = ch.pick(sorted(FILES_V2))
+        name = ch.pick(sorted(FILES_V2) + ["self.pt"])
         via_loader = ch.coin(0.25)
         shared = [{"kind": "loader", "auto": True, "obs_name": name}] \
             if via_loader else \
@@ -493,8 +496,8 @@ class C14(CheckBase):
             for _ in range(1 if ch.coin(0.7) else 2):
                 if via_loader:
                     ops.append(["load_render", 0, name, t + 1])
-                elif name in FILE_MACROS and ch.coin(0.4):
-                    ops.append(["names", 0] if ch.coin(0.4) else
+                elif name in FILE_MACROS and ch.coin(0.5):
+                    ops.append(["names", 0] if ch.coin(0.5) else
                                ["use", 0, ch.pick(FILE_MACROS[name]), t + 1])
                 else:
                     ops.append(["render", 0, t + 1])
